@@ -74,6 +74,12 @@ impl Prop for PExec {
         let mut pre: Vec<String> = vec![];
         pre_args(&input["pre"], &mut pre);
         args.extend(pre.clone());
+        // single mode: a mark before the action, without a newline; the recorder adds its own mark to the same output
+        let echo = !multi && input.get("echo").and_then(|e| e.as_bool()).unwrap_or(false);
+        if echo {
+            args.push("-printf".into());
+            args.push("B|%p\\0".into());
+        }
         args.push(if execdir { "-execdir".into() } else { "-exec".into() });
         args.push(cmd);
         let two = input.get("two").and_then(|t| t.as_bool()).unwrap_or(false);
@@ -114,6 +120,9 @@ impl Prop for PExec {
         if let Some(l) = input.get("rlimit_stack").and_then(|l| l.as_u64()) {
             env.push(("VH_RLIMIT_STACK".to_string(), l.to_string()));
         }
+        if echo {
+            env.push(("VREC_ECHO".to_string(), "1".to_string()));
+        }
         let r = run_find_bin(&dir, &args, None, &env, 120);
         if r.panicked {
             return json!({"panic": true, "args": args});
@@ -132,8 +141,14 @@ impl Prop for PExec {
                 o["truth"] = json!(recs.iter().map(|p| bytes_to_json(&unlossy(p, &tree))).collect::<Vec<_>>());
             }
         } else {
-            let truth: Vec<Value> = split_nul(&r.out)
+            let recs = split_nul(&r.out);
+            if echo {
+                // the order of the marks: B (before the action), X (the command ran), T/F (after it)
+                o["tags"] = json!(recs.iter().map(|rec| String::from_utf8_lossy(&rec[..rec.len().min(1)]).into_owned()).collect::<Vec<_>>());
+            }
+            let truth: Vec<Value> = recs
                 .iter()
+                .filter(|rec| !(rec.len() >= 2 && rec[1] == b'|' && (rec[0] == b'B' || rec[0] == b'X')))
                 .map(|rec| if rec.len() >= 2 && rec[1] == b'|' { json!([rec[0] == b'T', bytes_to_json(&unlossy(&rec[2..], &tree))]) } else { json!([false, bytes_to_json(b"<junk>")]) })
                 .collect();
             o["truth"] = json!(truth);
@@ -203,7 +218,7 @@ impl Prop for PExec {
             }
             let nocmd = idx % 17 == 3;
             let mut v = json!({"mode": "single", "tree": tree, "roots": roots, "cfg": cfg, "pre": pre, "template": template, "execdir": execdir,
-                   "script": if nocmd { vec![] } else { script }, "nocmd": nocmd});
+                   "script": if nocmd { vec![] } else { script }, "nocmd": nocmd, "echo": rng.chance(1, 2)});
             // "byte for byte" also for names that are not valid UTF-8 (the test before the action then looks at types only)
             if rng.chance(1, 4) && add_raw_names(&mut v, rng) && v["pre"]["p"] == "name" {
                 v["pre"] = json!({"p": "none"});
